@@ -1,1 +1,177 @@
-pub fn placeholder() {}
+//! C16 — AsyncWriter delivers whole frames in order under short writes and cancel + sync.
+//! ONE inductive step: from an arbitrary state (any buffer, `None` or `WriteFrom(o)`), one
+//! `sync()` / `write()` future is created, polled once and dropped; the sink answers every inner
+//! write with Pending / a transient error / Ok(0) / Ok(1) / Ok(all offered).  The post-state is
+//! again a state of the same family, so poll/drop/sync schedules of any length follow by
+//! induction (an argument, stated as such in DESIGN.md).
+use crate::models::*;
+use futures_io::AsyncWrite;
+use minicbor_io::{AsyncWriter, Error};
+use std::future::Future;
+use std::io;
+use std::pin::{pin, Pin};
+use std::task::{Context, Poll};
+
+const L: usize = 6;
+
+/// Scripted sink.  At most 2 completed writes per poll (then Pending): a longer poll passes
+/// through `WriteFrom` states that are themselves covered as pre-states.
+pub struct ASink { pub out: [u8; 12], pub n: usize, pub calls: u8, pub completed: u8, pub saw_zero: bool, pub saw_err: bool, pub saw_pending: bool }
+
+impl ASink { pub fn new() -> Self { ASink { out: [0; 12], n: 0, calls: 0, completed: 0, saw_zero: false, saw_err: false, saw_pending: false } } }
+
+impl AsyncWrite for ASink {
+    fn poll_write(mut self: Pin<&mut Self>, _cx: &mut Context<'_>, buf: &[u8]) -> Poll<io::Result<usize>> {
+        self.calls += 1;
+        let c: u8 = kani::any();
+        if self.completed >= 2 || c == 0 { self.saw_pending = true; return Poll::Pending }
+        if c == 1 { self.saw_err = true; return Poll::Ready(Err(io::ErrorKind::ConnectionReset.into())) }
+        if c == 2 { self.saw_zero = true; return Poll::Ready(Ok(0)) }
+        let k = if c == 3 { 1 } else { buf.len() };
+        let k = if k > buf.len() { buf.len() } else { k };
+        let base = self.n;
+        let mut i = 0;
+        while i < 10 { if i < k { self.out[base + i] = buf[i]; } i += 1; }
+        self.n += k;
+        self.completed += 1;
+        Poll::Ready(Ok(k))
+    }
+    fn poll_flush(self: Pin<&mut Self>, _cx: &mut Context<'_>) -> Poll<io::Result<()>> { Poll::Ready(Ok(())) }
+    fn poll_close(self: Pin<&mut Self>, _cx: &mut Context<'_>) -> Poll<io::Result<()>> { Poll::Ready(Ok(())) }
+}
+
+#[kani::proof]
+#[kani::unwind(12)]
+pub fn c16_sync_one_poll_from_any_state() {
+    let content: [u8; L] = kani::any();
+    let mut buffer = Vec::with_capacity(8);
+    let mut i = 0;
+    while i < L { buffer.push(content[i]); i += 1; }
+    let idle: bool = kani::any();
+    let o: usize = kani::any();
+    kani::assume(o <= L);
+    let mut w = AsyncWriter::__verif_from_parts(ASink::new(), buffer, 512, if idle { None } else { Some(o) });
+    let waker = noop_waker();
+    let mut cx = Context::from_waker(&waker);
+    let res = {
+        let fut = pin!(w.sync());
+        fut.poll(&mut cx)
+        // the future is dropped here (cancellation)
+    };
+    let post = w.__verif_state();
+    let s = w.writer();
+    let n = s.n;
+    if idle {
+        assert!(s.calls == 0 && n == 0, "sync on an idle writer wrote something");
+        assert!(matches!(res, Poll::Ready(Ok(()))) && post.is_none());
+    } else {
+        // exactly buffer[o .. o+n], in order
+        assert!(o + n <= L, "more bytes reached the sink than the buffer holds");
+        let mut i = 0;
+        while i < L { if i < n { assert!(s.out[i] == content[o + i], "sink received other bytes than buffer[o..o+n]"); } i += 1; }
+        match &res {
+            Poll::Pending => {
+                assert!(s.saw_pending);
+                assert!(post == Some(o + n), "bytes accepted before a Pending are not committed to the state");
+            }
+            Poll::Ready(Ok(())) => {
+                assert!(o + n == L, "sync completed before the whole buffer was delivered");
+                assert!(post.is_none(), "state not reset after completion");
+            }
+            Poll::Ready(Err(Error::Io(e))) => {
+                if s.saw_zero { assert!(e.kind() == io::ErrorKind::WriteZero, "sink accepted 0 bytes: not a write-zero error") }
+                else { assert!(s.saw_err && e.kind() == io::ErrorKind::ConnectionReset, "an error the sink never produced") }
+                assert!(post == Some(o + n), "bytes accepted before the error are not committed to the state");
+            }
+            Poll::Ready(Err(_)) => assert!(false, "unexpected error class"),
+        }
+        if s.saw_zero { assert!(matches!(res, Poll::Ready(Err(_)))) }
+        if s.saw_err { assert!(matches!(res, Poll::Ready(Err(_)))) }
+    }
+    kani::cover!(!idle && o == 0 && n == L && matches!(res, Poll::Ready(Ok(()))), "a whole frame delivered in one poll");
+    kani::cover!(!idle && n == 2 && matches!(res, Poll::Pending), "two one-byte writes then Pending");
+    kani::cover!(!idle && o == L, "nothing left to write");
+    core::mem::forget(w);
+}
+
+/// `write()` from the idle state: one poll.  Whatever the sink does, the bytes that reached it
+/// are a prefix of the frame `len_be32 ++ encoding`, the state accounts for them, and a
+/// completed write returns the payload length.
+#[kani::proof]
+#[kani::unwind(12)]
+#[kani::stub(std::vec::Vec::resize, crate::models::vec_resize)]
+#[kani::stub(std::vec::Vec::extend_from_slice, crate::models::vec_extend_from_slice)]
+#[kani::stub(minicbor::encode::Error::write, crate::models::encode_error_write_unreachable)]
+pub fn c16_write_one_poll_from_idle() {
+    let v: (u8, bool) = kani::any();
+    let max: u32 = kani::any();
+    kani::assume(max <= 5);
+    let mut w = AsyncWriter::with_buffer(ASink::new(), Vec::with_capacity(8));
+    w.set_max_len(max);
+    let waker = noop_waker();
+    let mut cx = Context::from_waker(&waker);
+    let res = {
+        let fut = pin!(w.write(&v));
+        fut.poll(&mut cx)
+    };
+    let plen: usize = 1 + (if v.0 < 24 { 1 } else { 2 }) + 1;
+    let mut frame = [0u8; 8];
+    frame[3] = plen as u8;
+    frame[4] = 0x82;
+    if v.0 < 24 { frame[5] = v.0; frame[6] = if v.1 { 0xf5 } else { 0xf4 } } else { frame[5] = 0x18; frame[6] = v.0; frame[7] = if v.1 { 0xf5 } else { 0xf4 } }
+    let post = w.__verif_state();
+    let s = w.writer();
+    if plen > max as usize {
+        assert!(matches!(res, Poll::Ready(Err(Error::InvalidLen))), "frame above max_len not refused");
+        assert!(s.calls == 0 && s.n == 0, "bytes of a refused frame were offered to the sink");
+        assert!(post.is_none(), "state changed by a refused write");
+    } else {
+        assert!(s.n <= 4 + plen);
+        let mut i = 0;
+        while i < 8 { if i < s.n { assert!(s.out[i] == frame[i], "sink received something else than a prefix of the frame"); } i += 1; }
+        match &res {
+            Poll::Ready(Ok(k)) => { assert!(*k == plen, "completed write does not report the payload length"); assert!(s.n == 4 + plen && post.is_none()) }
+            Poll::Pending => {
+                assert!(post == Some(s.n));
+                let b = w.__verif_buffer();
+                assert!(b.len() == 4 + plen);
+                let mut i = 0;
+                while i < 8 { if i < 4 + plen { assert!(b[i] == frame[i], "pending frame in the buffer is not the frame of the value"); } i += 1; }
+            }
+            Poll::Ready(Err(Error::Io(_))) => assert!(post == Some(s.n)),
+            Poll::Ready(Err(_)) => assert!(false),
+        }
+    }
+    kani::cover!(matches!(res, Poll::Ready(Ok(4))));
+    kani::cover!(matches!(res, Poll::Pending) && s.n == 0, "Pending before any byte was accepted");
+    core::mem::forget(w);
+}
+
+/// A value whose Encode impl fails: nothing is offered to the sink, state unchanged.
+pub struct Failing;
+impl<C> minicbor::Encode<C> for Failing {
+    fn encode<W: minicbor::encode::Write>(&self, e: &mut minicbor::Encoder<W>, _: &mut C) -> Result<(), minicbor::encode::Error<W::Error>> {
+        e.u8(1)?;
+        Err(minicbor::encode::Error::message("no"))
+    }
+}
+
+#[kani::proof]
+#[kani::unwind(12)]
+#[kani::stub(std::vec::Vec::resize, crate::models::vec_resize)]
+#[kani::stub(std::vec::Vec::extend_from_slice, crate::models::vec_extend_from_slice)]
+#[kani::stub(minicbor::encode::Error::write, crate::models::encode_error_write_unreachable)]
+pub fn c16_encode_failure_puts_nothing_into_the_sink() {
+    let mut w = AsyncWriter::with_buffer(ASink::new(), Vec::with_capacity(8));
+    let waker = noop_waker();
+    let mut cx = Context::from_waker(&waker);
+    let res = {
+        let fut = pin!(w.write(Failing));
+        fut.poll(&mut cx)
+    };
+    assert!(matches!(res, Poll::Ready(Err(Error::Encode(_)))));
+    assert!(w.writer().calls == 0 && w.writer().n == 0, "a value that failed to encode reached the sink");
+    assert!(w.__verif_state().is_none());
+    core::mem::forget(res);
+    core::mem::forget(w);
+}
